@@ -83,3 +83,564 @@ PROPS["C02"] = {
             "source kind) and then iterates the result; distinct = distinct script text",
     "design_ref": "DESIGN.md section 7, C02",
 }
+
+# ============================================================================================
+OWN = {"double-drop", "drop-while-visible", "duplicate-visible", "resurrected", "leak-at-end", "drop-accounting",
+       "identity", "memory"}
+SEM = {"vec-semantics"}
+KINDS_RAND = [("heap", "clone"), ("heap", "clone"), ("reloc", "clone"), ("heap", "none"), ("stack:512", "clone")]
+
+def teardown(c):
+    c.finish(list(range(c.nvec)))
+
+# ------------------------------------------------------------------------------------------ C03
+def gen_c03(tier, seed):
+    rng = random.Random(seed * 1000003 + 3)
+    cases = []
+    q = tier == "quick"
+    lays = [G.CORE_LAYOUT, (8, 8, 0), (0, 1, 1), (3, 1, 1), (160, 32, 1)] if q else G.LAYOUTS
+    cases += list(G.gen_elementwise(rng, lays, [("heap", "clone")], [0, 2, 3] if q else [0, 1, 2, 3, 4], tag="own"))
+    cases += list(G.gen_ranges(rng, lays[:3] if q else lays, [("heap", "clone"), ("reloc", "clone")], [0, 3] if q else [0, 2, 4], "ownr",
+                               strings_cap=6 if q else 16))
+    n = 60 if q else 400
+    for i in range(n):
+        layout = G.LAYOUTS[i % len(G.LAYOUTS)]
+        cases.append(G.rand_history(rng, "ownh%d" % i, layout, KINDS_RAND, 200 if q else 1200, 30 if q else 120,
+                                    ranges=True, clones=True))
+    return cases
+
+PROPS["C03"] = {"gen": gen_c03, "proj": {}, "kinds": OWN,
+    "rule": "C01/C02 operation instances plus long random histories over up to six vectors exchanging elements through every "
+            "sink, with drain/splice and clone; the identity registry checks after every step: no element destroyed twice, "
+            "none destroyed while reachable, none visible twice, none resurrected; at the end created == destroyed",
+    "design_ref": "DESIGN.md section 7, C03"}
+
+# ------------------------------------------------------------------------------------------ C04
+def gen_c04(tier, seed):
+    rng = random.Random(seed * 1000003 + 4)
+    cases = []; n = 0
+    q = tier == "quick"
+    for layout in ([(8, 8, 1), (8, 8, 0)] + ([] if q else [(16, 16, 1), (1, 1, 1), (0, 1, 1)])):
+        tys = [0, 1, 2, 3] if layout[0] == 8 and layout[1] == 8 else [0, 1]
+        for L in ([0, 2] if q else [0, 1, 2, 3]):
+            for tv in tys:
+                for to in tys:
+                    ops = []
+                    for s in ("w", "r"):
+                        ops += ["push 0 %s%d" % (s, to)] + ["insert 0 %d %s%d" % (i, s, to) for i in range(L + 1)]
+                    ops += ["wswap 0 %d %d" % (i, to) for i in range(L)]
+                    ops += ["dcvec 0 %d" % to, "info 0"]
+                    for hk in ("pop 0", "remove 0 0", "swapremove 0 0"):
+                        ops += ["%s dc%d" % (hk, to), "%s swap%d" % (hk, to), "%s info" % hk]
+                    # values of vector 1 (type `to`) offered to vector 0 (type `tv`)
+                    for hk in ("pop 1", "remove 1 0", "swapremove 1 1"):
+                        ops += ["%s push0" % hk, "%s ins0.%d" % (hk, min(1, L)), "%s lazy0.1" % hk]
+                    ops += ["push 0 l1.0.1", "insert 0 0 l1.1.2", "eswap 0 0 1 0"]
+                    for pos in range(3):
+                        repl = ["w%d" % tv] * 3; repl[pos] = "w%d" % to
+                        ops.append("splice 0 i0 e%d e %s +0 - drop" % (min(1, L), ",".join(repl)))
+                        repl = ["r%d" % tv] * 2 + ["w%d" % tv]; repl[pos] = "r%d" % to
+                        ops.append("splice 0 u u e %s +0 F:drop drop" % ",".join(repl))
+                    ops.append("drain 1 u u e F:push0,B:ins0.0,F:dc%d,B:info drop" % tv)
+                    for op in ops:
+                        c = G.Case("ty%d" % n, layout); n += 1
+                        v0 = c.new(tv, "heap", "clone"); v1 = c.new(to, "heap", "clone")
+                        G.fill_ty(c, v0, L, rng, tv); G.fill_ty(c, v1, 3, rng, to)
+                        c.add(op); c.add("iter 0 FFFFFF"); c.add("info 0")
+                        teardown(c); cases.append(c)
+    return cases
+
+PROPS["C04"] = {"gen": gen_c04, "proj": {}, "kinds": SEM | {"drop-accounting", "clone-accounting"},
+    "rule": "all ordered pairs (vector element type, offered value type) from four layout-identical distinct types x every "
+            "checked entry point (push, insert, splice item at each position, element swap, handle/drained-element moves, lazy "
+            "clones, downcast of vector / handle / drained element, type reports) x source kind x vector state; expected "
+            "panic / None / Some tables evaluated on the implementation",
+    "design_ref": "DESIGN.md section 7, C04"}
+
+# ------------------------------------------------------------------------------------------ C06
+FOLLOW = ["iter 0 FFFFFFF", "push 0 w0", "tpush 0", "pop 0 drop", "insert 0 0 r0", "remove 0 0 drop", "iter 0 BBBBBBBB",
+          "drain 0 u u e F:drop drop", "push 0 w0", "clear 0", "push 0 w0"]
+
+def fault_targets(L, cl):
+    ops = ["clear 0", "pop 0 drop", "tpop 0", "push 0 w1", "insert 0 1 w1", "pop 0 dc1", "pop 0 swap0", "pop 0 swap1"]
+    for i in sorted(set([0, L // 2, max(L - 1, 0)])):
+        ops += ["remove 0 %d drop" % i, "swapremove 0 %d drop" % i, "remove 0 %d push2" % i, "remove 0 %d swap0" % i,
+                "wswap 0 %d 0" % i, "tassign 0 %d" % i]
+    if cl:
+        ops += ["push 0 l1.0.1", "insert 0 0 l1.1.2", "insert 0 %d l1.0.1" % L, "insert 0 %d l1.0.3" % (L // 2),
+                "pop 0 lazy1.2", "remove 0 0 lazy1.3", "clone 0", "pop 1 lazy0.2"]
+    for (lo, hi) in [("u", "u"), ("i1", "e%d" % max(L - 1, 1)), ("i0", "e%d" % min(2, L))]:
+        for typed in "et":
+            for eats in ["-", "F:drop", "B:drop,F:drop", "F:dc0,B:drop,B:drop"] + (["F:swap0", "B:push2", "F:lazy1.1" if cl else "F:drop"] if typed == "e" else []):
+                ops.append("drain 0 %s %s %s %s drop" % (lo, hi, typed, eats))
+                for repl in (["w0", "w0"], ["r0"], ["w0", "w1", "w0"], ["r0", "r1"]) + ((["l1.0.1", "w0", "l1.1.1"],) if cl and "1" not in eats.replace("l1", "") else ()):
+                    if typed == "t" and any(x != "w0" for x in repl): continue
+                    if any(x.startswith("l1") for x in repl) and ("push1" in eats or "lazy1" in eats or "ins1" in eats): continue
+                    # a sink that panics drops the Splice while unwinding; a mismatched replacement then panics a second
+                    # time (process abort by design of panicking destructors): keep those two apart
+                    if any(x.endswith("1") and x[0] in "wr" for x in repl) and eats != "-": continue
+                    ops.append("splice 0 %s %s %s %s +0 %s drop" % (lo, hi, typed, ",".join(repl), eats))
+    ops += ["dropvec 0", "release"]
+    return ops
+
+def gen_c06(tier, seed):
+    rng = random.Random(seed * 1000003 + 6)
+    cases = []; n = 0
+    q = tier == "quick"
+    lays = [G.CORE_LAYOUT, (3, 1, 1), (160, 32, 1), (0, 1, 1)] if q else [l for l in G.LAYOUTS if l[2]]
+    kinds = [("heap", "clone"), ("reloc", "clone")] if q else [("heap", "clone"), ("reloc", "clone"), ("stack:512", "clone"), ("heap", "none")]
+    for layout in lays:
+        for bk, tr in (kinds if layout == G.CORE_LAYOUT or not q else kinds[:1]):
+            cl = "clone" in tr
+            for L in ([3] if q else [1, 3, 4]):
+                for op in fault_targets(L, cl):
+                    if op.startswith("clone") and not cl: continue
+                    for k in range(1, (7 if q else 10)):
+                        c = G.Case("flt%d" % n, layout); n += 1
+                        G.setup3(c, bk, tr, L, rng)
+                        if op == "release": c.add("pop 0 dc0"); c.add("pop 0 dc0")
+                        c.add(op, fault=k)
+                        if not op.startswith("dropvec"):
+                            for f in FOLLOW: c.add(f)
+                            c.finish(list(range(c.nvec)) if not op.startswith("clone") else list(range(c.nvec + 1)))
+                        else:
+                            c.finish([1, 2])
+                        cases.append(c)
+    # replacement iterators that misreport their length
+    for layout in lays[:2]:
+        for bk, tr in kinds[:2]:
+            for L in [0, 3]:
+                for (lo, hi) in [("u", "u"), ("i1", "e2"), ("i0", "e0"), ("i%d" % L, "u")]:
+                    if G  and shadow_valid(L, lo, hi) is None: continue
+                    for typed in "et":
+                        for repl in (["w0"], ["w0", "w0", "w0"], ["r0", "w0"], []):
+                            if typed == "t" and any(x != "w0" for x in repl): continue
+                            for claim in (-2, -1, 1, 2):
+                                for eats in ("-", "F:drop", "B:dc0"):
+                                    c = G.Case("lie%d" % n, layout); n += 1
+                                    G.setup3(c, bk, tr, L, rng)
+                                    c.add("splice 0 %s %s %s %s %+d %s drop" % (lo, hi, typed, ",".join(repl) or "-", claim, eats))
+                                    for f in FOLLOW: c.add(f)
+                                    teardown(c); cases.append(c)
+    return cases
+
+def shadow_valid(L, lo, hi):
+    from shadow import math_range
+    return math_range(L, lo, hi)
+
+PROPS["C06"] = {"gen": gen_c06, "proj": {}, "kinds": OWN | SEM | {"capacity", "crash"},
+    "rule": "for each (vector state, operation instance) the k-th user-code call (element Drop, element Clone, replacement "
+            "next) is made to panic, k = 1..N+; replacement iterators claim a length off by -2..+2; afterwards the vectors are "
+            "used further (iterate, push, pop, insert, remove, drain, clear) and dropped; registry + canary + shadow-Vec "
+            "oracles on every following step",
+    "design_ref": "DESIGN.md section 7, C06"}
+
+# ------------------------------------------------------------------------------------------ C07
+def gen_c07(tier, seed):
+    rng = random.Random(seed * 1000003 + 7)
+    cases = []; n = 0
+    q = tier == "quick"
+    lays = [G.CORE_LAYOUT, (8, 8, 0), (3, 1, 1), (0, 1, 1), (160, 32, 1)] if q else G.LAYOUTS
+    for layout in lays:
+        for bk, tr in ([("heap", "clone"), ("reloc", "clone"), ("stack:512", "clone")] if layout == G.CORE_LAYOUT else [("heap", "clone")]):
+            for L in ([0, 1, 3] if q else [0, 1, 2, 3, 5]):
+                ops = ["pop 0 forget"]
+                for i in range(L + 1): ops += ["remove 0 %d forget" % i, "swapremove 0 %d forget" % i]
+                for s in range(L + 1):
+                    for e in range(s, L + 1):
+                        r = e - s
+                        pats = {""}
+                        for f in range(r + 1):
+                            for b in range(r + 1 - f):
+                                pats.add("F" * f + "B" * b); pats.add("B" * b + "F" * f)
+                        for cs in sorted(pats):
+                            for typed in "et":
+                                eats = ",".join("%s:%s" % (ch, rng.choice(["drop", "dc0"])) for ch in cs) or "-"
+                                ops.append("drain 0 i%d e%d %s %s forget" % (s, e, typed, eats))
+                                if cs:
+                                    # a yielded item is forgotten, the iterator dropped normally
+                                    ee = eats.split(","); ee[rng.randrange(len(ee))] = ee[0][:2] + "forget"
+                                    ops.append("drain 0 i%d e%d %s %s drop" % (s, e, typed, ",".join(ee)))
+                                repl = rng.choice([[], ["w0"], ["w0", "w0", "w0"]] + ([] if typed == "t" else [["r0", "w0"]]))
+                                ops.append("splice 0 i%d e%d %s %s +0 %s forget" % (s, e, typed, ",".join(repl) or "-", eats))
+                for op in ops:
+                    c = G.Case("fg%d" % n, layout); n += 1
+                    G.setup3(c, bk, tr, L, rng)
+                    c.add(op)
+                    for f in FOLLOW: c.add(f)
+                    teardown(c); cases.append(c)
+    return cases
+
+PROPS["C07"] = {"gen": gen_c07, "proj": {}, "kinds": OWN | SEM | {"forget-prefix", "capacity", "crash"},
+    "rule": "for every (state, pop/remove/swap_remove/drain/splice instance): mem::forget of the handle or iterator at every "
+            "stage (immediately, after f front / b back items) or of a yielded item, followed by further operations and drop; "
+            "oracles: prefix before the affected index unchanged, nothing duplicated / destroyed twice / resurrected",
+    "design_ref": "DESIGN.md section 7, C07"}
+
+# ------------------------------------------------------------------------------------------ C08
+CLONE_KINDS = [("heap", "clone"), ("reloc", "clone"), ("stack:48", "clone"), ("stack:512", "clone"), ("stackn:2:48", "clone"),
+               ("stackn:3:512", "clone"), ("empty", "clone")]
+AFTER = ["push {v} w0", "tpush {v}", "pop {v} drop", "insert {v} 0 r0", "remove {v} 0 drop", "swapremove {v} 0 dc0", "clear {v}",
+         "drain {v} u u e F:drop drop", "splice {v} u u t w0 +0 - drop", "wswap {v} 0 0", "tassign {v} 0", "swapb {v} 0 1",
+         "reserve {v} 3", "shrinktofit {v}", "dropvec {v}"]
+
+def gen_c08(tier, seed):
+    rng = random.Random(seed * 1000003 + 8)
+    cases = []; n = 0
+    q = tier == "quick"
+    lays = [G.CORE_LAYOUT, (8, 8, 0), (0, 1, 1), (1, 1, 1), (160, 32, 1), (64, 64, 1)] if q else G.LAYOUTS
+    for layout in lays:
+        kinds = CLONE_KINDS + ([(b, t) for (b, t) in G.EXTRA_KINDS if "clone" in t] if layout[:2] == (8, 8) else [])
+        for bk, tr in kinds:
+            cap = G.kind_cap(bk, layout[0])
+            if cap is not None and cap < 0: continue
+            for L in ([0, 1, 2, 3] if q else [0, 1, 2, 3, 4, 6]):
+                if cap is not None and L > cap: continue
+                variants = [("clone 0", 1)]
+                if tr == "clone": variants += [("cloneempty 0", 1)] + [("cloneemptyin 0 %s" % t, 1) for t in ("heap", "stack:48", "stackn:2:48", "reloc")]
+                for mk, _ in variants:
+                    if "cloneemptyin" in mk and (G.kind_cap(mk.split()[-1], layout[0]) or 0) < 0: continue
+                    afters = AFTER if (layout == G.CORE_LAYOUT or not q) else AFTER[:4]
+                    for a in afters:
+                        for who in (0, 1):
+                            if a.startswith(("reserve", "shrink")) and who == 0 and cap is not None: continue
+                            if a.startswith(("reserve", "shrink")) and who == 1 and not (("cloneemptyin" in mk and mk.split()[-1] in ("heap", "reloc")) or ("cloneemptyin" not in mk and cap is None)): continue
+                            c = G.Case("cl%d" % n, layout); n += 1
+                            v0 = c.new(0, bk, tr); G.fill(c, v0, L, rng)
+                            c.add(mk); c.nvec += 1
+                            c.add("info 1"); c.add("probe 1")
+                            tl = L if (who == 0 or mk == "clone 0") else 0
+                            if a.startswith("swapb") and tl < 2: continue
+                            c.add(a.format(v=who))
+                            live = [0, 1]
+                            if a.startswith("dropvec"): live.remove(who)
+                            for x in live: c.add("probe %d" % x)
+                            if "cloneempty" in mk and 1 in live:
+                                c.add("push 1 w0"); c.add("push 1 l0.0.1" if (L > 0 and 0 in live) else "push 1 r0"); c.add("clone 1"); c.nvec += 1; live.append(2)
+                            c.finish(live); cases.append(c)
+    return cases
+
+PROPS["C08"] = {"gen": gen_c08, "proj": {}, "kinds": SEM | OWN | {"clone-accounting", "capacity"},
+    "rule": "every vector state up to the bound x every Cloneable constraint set x every backend: clone / clone_empty / "
+            "clone_empty_in(every target backend), then every single operation on the original and on the clone, then both are "
+            "inspected through three views; clone lineage (each source element cloned exactly once) from the registry",
+    "design_ref": "DESIGN.md section 7, C08"}
+
+# ------------------------------------------------------------------------------------------ C09
+def gen_c09(tier, seed):
+    rng = random.Random(seed * 1000003 + 9)
+    cases = []; n = 0
+    q = tier == "quick"
+    lays = [l for l in G.LAYOUTS if l[2]] if not q else [G.CORE_LAYOUT, (1, 1, 1), (12, 4, 1), (160, 32, 1), (0, 1, 1)]
+    for layout in lays:
+        for L in ([1, 3] if q else [1, 2, 3, 4]):
+            ops = []
+            for i in range(L):
+                for d in (1, 2, 3):
+                    ops += [["push 1 l0.%d.%d" % (i, d)] * k for k in (1, 2, 3)]
+                    ops += [["insert 1 %d l0.%d.%d" % (j, i, d)] for j in (0, 1, 2)]
+                    ops += [["splice 1 i0 e1 e l0.%d.%d,w0,l0.%d.%d +0 - drop" % (i, d, (i + 1) % L, d)]]
+            for hk in ["pop 0", "remove 0 0", "swapremove 0 0", "remove 0 %d" % (L - 1)]:
+                for k in (0, 1, 2, 3): ops.append(["%s lazy1.%d" % (hk, k)])
+            for k in (0, 1, 2, 3):
+                ops.append(["drain 0 u u e F:lazy1.%d,B:lazy1.%d drop" % (k, k)])
+                ops.append(["drain 0 i0 e1 e F:lazy1.%d drop" % k])
+            ops.append(["get 0 0", "at 0 0", "iter 0 FF"])          # creating/dropping references clones nothing
+            for seq in ops:
+                c = G.Case("lz%d" % n, layout); n += 1
+                v0 = c.new(0, rng.choice(["heap", "reloc", "stack:512"]), "clone"); v1 = c.new(0, "heap", "clone")
+                G.fill(c, v0, L, rng); G.fill(c, v1, 2, rng)
+                for o_ in seq: c.add(o_)
+                c.add("probe 0"); c.add("probe 1"); c.add("iter 0 FFFFF")
+                teardown(c); cases.append(c)
+    return cases
+
+PROPS["C09"] = {"gen": gen_c09, "proj": {}, "kinds": SEM | {"clone-accounting", "drop-accounting"} | OWN,
+    "rule": "all cloneable source kinds (element reference, removal handle, drained element) x consumption kinds (push, insert, "
+            "splice item) x chain depth 1..3 x consumptions 0..3, from every vector state; clone lineage: each consumption is "
+            "exactly one clone of the root element, creation/drop of a lazy clone is no event",
+    "design_ref": "DESIGN.md section 7, C09"}
+
+# ------------------------------------------------------------------------------------------ C10
+def gen_c10(tier, seed):
+    rng = random.Random(seed * 1000003 + 10)
+    cases = []; n = 0
+    q = tier == "quick"
+    M = 2**64 - 1; I = 2**63 - 1
+    lays = [G.CORE_LAYOUT, (0, 1, 1), (1, 1, 0), (3, 1, 1), (24, 8, 1), (160, 32, 1)] if q else G.LAYOUTS
+    for layout in lays:
+        for bk in ("heap", "reloc"):
+            B = 4 if q else 6
+            for L in range(0, B + 1):
+                for C in sorted(set([L, L + 1, L + 3])):
+                    big = [M, M - 1, M - 2, M - L, min(M, M - L + 1), I + 1, I // max(layout[0], 1) + 1, min(M, (M // max(layout[0], 1)) + 1)]
+                    if layout[0] == 0: big += [I, I - 1, 12345678901234]
+                    args = list(range(0, B + 3)) + big
+                    ops = ["shrinktofit 0"] + ["%s 0 %d" % (k, a) for k in ("reserve", "reserveexact", "shrinkto") for a in args]
+                    for op in ops:
+                        c = G.Case("cap%d" % n, layout); n += 1
+                        c.new(0, bk, "clone", cap=C) if C > 0 else c.new(0, bk, "clone")
+                        G.fill(c, 0, min(L, C) if C > 0 else 0, rng)
+                        if C == 0 and L > 0: G.fill(c, 0, L, rng)
+                        c.add(op); c.add("info 0"); c.add("probe 0"); c.add("push 0 w0"); c.add("shrinktofit 0"); c.add("probe 0")
+                        teardown(c); cases.append(c)
+            from shadow import resize_outcome
+            for C in [0, 1, 5, 64, M, I + 1, I // max(layout[0], 1) + 1] + ([I, 2**40] if layout[0] == 0 else []):
+                c = G.Case("cap%d" % n, layout); n += 1
+                c.new(0, bk, "clone", cap=C)
+                if resize_outcome(bk, layout[0], layout[1], 0, C) == "ok":
+                    c.add("info 0"); c.add("push 0 w0"); c.add("info 0"); teardown(c)
+                else:
+                    c.finish([])
+                cases.append(c)
+        # amortised growth: a long push run
+        for bk in ("heap", "reloc"):
+            c = G.Case("cap%d" % n, layout); n += 1
+            c.new(0, bk, "clone")
+            npush = 200 if layout[0] not in (1, 2, 3) else 200
+            if layout[0] == 1: npush = 200
+            for _ in range(npush if q else 1000 if layout[0] >= 8 or layout[0] == 0 else 200): c.add(rng.choice(["push 0 w0", "tpush 0", "push 0 r0"]))
+            teardown(c); cases.append(c)
+    # capacity calls interleaved with element-wise operations
+    for i in range(30 if q else 200):
+        layout = G.LAYOUTS[i % len(G.LAYOUTS)]
+        cases.append(G.rand_history(rng, "caph%d" % i, layout, [("heap", "clone"), ("reloc", "clone")], 150 if q else 800, 40, caps=True))
+    return cases
+
+PROPS["C10"] = {"gen": gen_c10, "proj": {"want_cap": True, "want_alloc": True, "want_mem": True},
+    "kinds": {"capacity", "vec-semantics", "crash", "alloc-protocol"},
+    "release_subset": lambda c: c.name.startswith("cap") and any(len(l) > 30 and l.split()[0] in ("reserve", "reserveexact", "shrinkto", "withcap") for l in c.lines),
+    "rule": "every (len, capacity) state up to the bound x every argument 0..bound+2 and near usize::MAX / isize::MAX (also divided "
+            "by the element size) for reserve / reserve_exact / shrink_to / shrink_to_fit / with_capacity, on Heap and the "
+            "instrumented resizable backend, dev and release profile; push runs for amortisation; capacity calls interleaved with "
+            "random element-wise histories; capacity promises evaluated on the implementation",
+    "design_ref": "DESIGN.md section 7, C10"}
+
+# ------------------------------------------------------------------------------------------ C11
+def gen_c11(tier, seed):
+    rng = random.Random(seed * 1000003 + 11)
+    cases = []; n = 0
+    q = tier == "quick"
+    stack_kinds = [("stack:48", "clone"), ("stack:512", "clone"), ("stackn:2:48", "clone"), ("stackn:3:512", "clone"), ("empty", "clone")]
+    for layout in G.LAYOUTS:
+        kinds = stack_kinds + ([k for k in G.EXTRA_KINDS if k[0].startswith("stack")] if layout[:2] == (8, 8) else [])
+        for bk, tr in kinds:
+            cap = G.kind_cap(bk, layout[0])
+            c = G.Case("st%d" % n, layout); n += 1
+            c.new(0, bk, tr); 
+            if cap >= 0: c.add("info 0"); c.add("views 0"); c.finish([0])
+            else: c.finish([])
+            cases.append(c)
+            if cap < 0 or cap > 70: 
+                if cap > 70:
+                    # large / unbounded capacity: behave as the heap on ordinary histories
+                    cases.append(G.rand_history(rng, "sth%d" % n, layout, [(bk, tr)], 60 if q else 300, 20, nvecs=2)); n += 1
+                continue
+            Ls = sorted(set([max(cap - 1, 0), cap])) if q else sorted(set([0, max(cap - 2, 0), max(cap - 1, 0), cap]))
+            for L in Ls:
+                ops = ["push 0 w0", "push 0 r0", "tpush 0", "insert 0 0 w0", "insert 0 %d r0" % L, "tinsert 0 %d" % (L // 2),
+                       "push 0 l1.0.1", "pop 1 push0", "remove 1 0 ins0.0", "clone 0", "pop 0 drop", "remove 0 0 dc0"]
+                for s, e in sorted(set([(0, 0), (0, L), (L, L), (0, min(1, L)), (max(L - 1, 0), L)])):
+                    for k in (0, 1, 2, 3):
+                        if L - (e - s) + k > cap + 1: continue
+                        for typed in "et":
+                            repl = ["w0"] * k if typed == "t" else [rng.choice(["w0", "r0"]) for _ in range(k)]
+                            ops.append("splice 0 i%d e%d %s %s +0 %s drop" % (s, e, typed, ",".join(repl) or "-", rng.choice(["-", "F:drop", "B:dc0"])))
+                for op in ops:
+                    c = G.Case("st%d" % n, layout); n += 1
+                    v0 = c.new(0, bk, tr); v1 = c.new(0, "stack:512", "clone") if G.kind_cap("stack:512", layout[0]) >= 2 else c.new(0, "stack:48", "clone")
+                    G.fill(c, v0, L, rng); G.fill(c, v1, min(2, G.kind_cap("stack:512", layout[0])), rng)
+                    c.add(op); 
+                    if op.startswith("clone"): c.nvec += 1
+                    c.add("probe 0"); c.add("info 0")
+                    teardown(c); cases.append(c)
+    return cases
+
+PROPS["C11"] = {"gen": gen_c11, "proj": {"want_cap": True, "want_alloc": True},
+    "kinds": {"capacity", "vec-semantics", "heap-use", "crash"} | OWN,
+    "rule": "Stack<SIZE> / StackN<N,SIZE> over grids around multiples of the element size for every layout: reported capacity, "
+            "construction panic, every push/insert/splice/clone/move-in whose result length is capacity-1, capacity, capacity+1; "
+            "only stack-backed vectors are alive, so any allocator call is a finding; shadow Vec for the results",
+    "design_ref": "DESIGN.md section 7, C11"}
+
+# ------------------------------------------------------------------------------------------ C12
+def gen_c12(tier, seed):
+    rng = random.Random(seed * 1000003 + 12)
+    cases = []; n = 0
+    q = tier == "quick"
+    for layout in G.LAYOUTS:
+        kinds = G.CORE_KINDS + (G.EXTRA_KINDS if layout[:2] == (8, 8) else [])
+        for bk, tr in kinds:
+            cap = G.kind_cap(bk, layout[0])
+            if cap is not None and cap < 0: continue
+            for L in ([0, 1, 3] if q else [0, 1, 2, 3, 5]):
+                if cap is not None and L > cap: continue
+                for extra in (0, 2):
+                    if extra and cap is not None: continue
+                    c = G.Case("vw%d" % n, layout); n += 1
+                    c.new(0, bk, tr); G.fill(c, 0, L, rng)
+                    if extra: c.add("reserve 0 %d" % extra)
+                    c.add("views 0"); c.add("probe 0"); c.add("info 0")
+                    room = (cap - L) if cap is not None else None
+                    for k in (1, 2):
+                        if room is not None and k > room: continue
+                        if room is None: c.add("reserve 0 %d" % k)
+                        c.add("setlen 0 %d %s" % (k, rng.choice("et"))); c.add("views 0"); c.add("probe 0")
+                        if room is not None: room -= k
+                    c.add("swapb 0 0 %d" % (L,)) if L >= 1 and (room is None or True) and False else None
+                    teardown(c); cases.append(c)
+    return cases
+
+PROPS["C12"] = {"gen": gen_c12, "proj": {"want_cap": True}, "kinds": SEM | {"memory", "crash", "capacity"} | OWN,
+    "rule": "every (len, capacity) state up to the bound on every backend and layout (alignment up to 64, sizes 0/1/3/160): "
+            "extent and offset of as_bytes / as_bytes_mut / spare_bytes_mut / spare_capacity_mut / typed slice, storage "
+            "pointer modulo the element alignment, then values written into the spare capacity (typed and byte-wise) + set_len and "
+            "the result read back through three views",
+    "design_ref": "DESIGN.md section 7, C12"}
+
+# ------------------------------------------------------------------------------------------ C13
+def gen_c13(tier, seed):
+    rng = random.Random(seed * 1000003 + 13)
+    cases = []; n = 0
+    q = tier == "quick"
+    lays = G.LAYOUTS
+    for layout in lays:
+        for bk, tr in ([("heap", "clone"), ("reloc", "none"), ("stack:512", "clone")] if (layout == G.CORE_LAYOUT or not q) else [("heap", "clone")]):
+            for L in ([0, 1, 3] if q else [0, 1, 2, 4]):
+                ops = [["get 0 %d" % i, "at 0 %d" % i] for i in range(L + 2)]
+                ops += [["iter 0 " + "F" * (L + 1)], ["iter 0 " + "B" * (L + 1)]]
+                for i in range(L + 1):
+                    ops += [["wswap 0 %d 0" % i], ["tassign 0 %d" % i], ["wswap 0 %d 1" % i]]
+                    ops += [["remove 0 %d swap0" % i], ["swapremove 0 %d swap0" % i]]
+                    for j in range(L + 1):
+                        ops += [["tswap 0 %d %d" % (i, j)]]
+                        if i < L and j < L: ops += [["swapb 0 %d %d" % (i, j)]]
+                        if j < 3: ops += [["eswap 0 %d 1 %d" % (i, j)], ["eswap 1 %d 0 %d" % (j, i)]]
+                ops += [["eswap 0 0 2 0"], ["pop 0 swap0"], ["pop 0 swap1"], ["drain 0 u u e F:swap0,B:swap0 drop"]]
+                for seq in ops:
+                    c = G.Case("hd%d" % n, layout); n += 1
+                    G.setup3(c, bk, tr, L, rng)
+                    for o_ in seq: c.add(o_)
+                    c.add("probe 0"); c.add("probe 1"); c.add("iter 0 " + "F" * (L + 1)); c.add("info 0")
+                    teardown(c); cases.append(c)
+    return cases
+
+PROPS["C13"] = {"gen": gen_c13, "proj": {}, "kinds": SEM | OWN,
+    "rule": "all indices 0..=len+1 in every state for get/at/iter; a write or swap through every handle kind (erased element "
+            "reference with a typed wrapper, typed reference assignment, typed slice swap, byte view swap, element swap across two "
+            "vectors in both orders, removal handle / drained element before consumption) followed by a read through the erased "
+            "iterator, the typed slice and the byte view",
+    "design_ref": "DESIGN.md section 7, C13"}
+
+# ------------------------------------------------------------------------------------------ C14
+def gen_c14(tier, seed):
+    rng = random.Random(seed * 1000003 + 14)
+    cases = []; n = 0
+    q = tier == "quick"
+    lays = [G.CORE_LAYOUT, (0, 1, 1), (3, 1, 0), (160, 32, 1)] if q else G.LAYOUTS
+    for layout in lays:
+        for L in ([0, 1, 2, 3, 4] if q else [0, 1, 2, 3, 4, 5, 6]):
+            c = G.Case("it%d" % n, layout); n += 1
+            c.new(0, "heap", "clone"); G.fill(c, 0, L, rng)
+            for cs in G.choice_strings(L, 2, rng, cap=200 if q else 600): c.add("iter 0 %s" % (cs or "-"))
+            teardown(c); cases.append(c)
+            for s in range(L + 1):
+                for e in range(s, L + 1):
+                    for cs in G.choice_strings(e - s, 2, rng, cap=10 if q else 40):
+                        for typed in "et":
+                            eats = ",".join("%s:drop" % ch for ch in cs) or "-"
+                            c = G.Case("it%d" % n, layout); n += 1
+                            c.new(0, "heap", "clone"); G.fill(c, 0, L, rng)
+                            c.add("drain 0 i%d e%d %s %s drop" % (s, e, typed, eats)); c.add("probe 0")
+                            teardown(c); cases.append(c)
+                            c = G.Case("it%d" % n, layout); n += 1
+                            c.new(0, "heap", "clone"); G.fill(c, 0, L, rng)
+                            c.add("splice 0 i%d e%d %s w0 +0 %s drop" % (s, e, typed, eats)); c.add("probe 0")
+                            teardown(c); cases.append(c)
+    return cases
+
+PROPS["C14"] = {"gen": gen_c14, "proj": {}, "kinds": SEM,
+    "rule": "every state up to the bound, every sub-range for drain/splice (erased and typed), every next/next_back "
+            "interleaving up to range length + 2 calls (all 2^n strings while small, sampled beyond): yielded element and "
+            "len()/size_hint at every step, None after exhaustion",
+    "design_ref": "DESIGN.md section 7, C14"}
+
+# ------------------------------------------------------------------------------------------ C17
+def gen_c17(tier, seed):
+    rng = random.Random(seed * 1000003 + 17)
+    cases = []; n = 0
+    q = tier == "quick"
+    for layout in G.LAYOUTS:
+        kinds = [("heap", "clone"), ("heap", "none"), ("reloc", "clone"), ("empty", "clone")] + ([k for k in G.EXTRA_KINDS if k[0] == "heap"] if layout[:2] == (8, 8) else [])
+        for bk, tr in kinds:
+            for L in ([0, 1, 3] if q else [0, 1, 2, 3, 5]):
+                if bk == "empty" and L > 0: continue
+                afters = ["push 0 w0", "tpush 0", "pop 0 drop", "insert 0 0 r0", "remove 0 0 dc0", "clear 0", "drain 0 u u e F:drop drop",
+                          "splice 0 u u e w0,r0 +0 - drop", "iter 0 FFFF", "rawrt 0", "rawparts 0"] + (["clone 0"] if "clone" in tr else []) \
+                         + (["reserve 0 5", "shrinktofit 0"] if bk != "empty" else [])
+                for a in afters:
+                    for first in ("rawrt 0", "rawparts 0"):
+                        c = G.Case("rp%d" % n, layout); n += 1
+                        c.new(0, bk, tr); G.fill(c, 0, L, rng)
+                        if bk != "empty" and rng.random() < 0.5: c.add("reserve 0 2")
+                        c.add("info 0"); c.add(first); c.add("info 0"); c.add("probe 0")
+                        c.add(a)
+                        if a.startswith("clone"): c.nvec += 1
+                        c.add("rawrt 0"); c.add("probe 0"); c.add("info 0")
+                        teardown(c); cases.append(c)
+    return cases
+
+PROPS["C17"] = {"gen": gen_c17, "proj": {"want_cap": True, "want_alloc": True, "want_mem": True},
+    "kinds": SEM | OWN | {"capacity", "alloc-protocol", "rawparts"},
+    "rule": "every state up to the bound x constraint set x {Heap, Empty, user backend}: into_raw_parts / field-wise clone / "
+            "from_raw_parts round trips (no destructor, clone or allocator event may occur; reported fields must equal the "
+            "vector's), repeated and interleaved with every element-wise operation, then inspected through three views",
+    "design_ref": "DESIGN.md section 7, C17"}
+
+# ------------------------------------------------------------------------------------------ C18
+def gen_c18(tier, seed):
+    rng = random.Random(seed * 1000003 + 18)
+    cases = []
+    q = tier == "quick"
+    heap = [("heap", "clone"), ("heap", "none")]
+    lays = [G.CORE_LAYOUT, (0, 1, 1), (1, 1, 1), (3, 1, 0), (16, 16, 1), (64, 64, 1), (160, 32, 1)] if q else G.LAYOUTS
+    cases += list(G.gen_elementwise(rng, lays, heap[:1], [0, 1, 3] if q else [0, 1, 2, 3, 4], tag="al"))
+    cases += list(G.gen_ranges(rng, lays[:3] if q else lays, heap[:1], [0, 3], "alr", strings_cap=4))
+    for i in range(40 if q else 300):
+        layout = G.LAYOUTS[i % len(G.LAYOUTS)]
+        cases.append(G.rand_history(rng, "alh%d" % i, layout, heap, 150 if q else 1000, 40 if q else 150, ranges=True, clones=True, caps=True))
+    cases += [c for c in gen_c10(tier, seed) if any(l.startswith(("new 0 heap", "withcap 0 heap")) for l in c.lines)]
+    return cases
+
+PROPS["C18"] = {"gen": gen_c18, "proj": {"want_cap": True, "want_alloc": True},
+    "kinds": {"alloc-protocol", "memory", "leak", "crash", "capacity"},
+    "release_subset": PROPS["C10"]["release_subset"],
+    "rule": "C01/C02/C10 histories on the Heap backend under the instrumented global allocator (every realloc moves, released "
+            "memory poisoned, layouts checked against the live block): at most one block per vector of exactly capacity x size "
+            "bytes with the element alignment, none when that is zero; capacity requests over the usize range at the overflow "
+            "boundaries in dev and release profile; no block live at the end",
+    "design_ref": "DESIGN.md section 7, C18"}
+
+# ------------------------------------------------------------------------------------------ C05
+def gen_c05(tier, seed):
+    rng = random.Random(seed * 1000003 + 5)
+    cases = []
+    q = tier == "quick"
+    kinds = [("reloc", "clone"), ("heap", "clone"), ("reloc", "none")]
+    lays = [G.CORE_LAYOUT, (1, 1, 1), (3, 1, 0), (12, 4, 1), (64, 64, 1), (160, 32, 1), (0, 1, 1)] if q else G.LAYOUTS
+    cases += list(G.gen_elementwise(rng, lays, kinds[:1], [0, 1, 3] if q else [0, 1, 2, 3, 4], tag="mem"))
+    cases += list(G.gen_ranges(rng, lays[:4] if q else lays, kinds[:2], [0, 3] if q else [0, 2, 4], "memr", strings_cap=5))
+    for c in gen_c08(tier, seed):
+        if any(l.startswith("new 0 reloc") for l in c.lines): cases.append(c)
+    for i in range(40 if q else 300):
+        layout = G.LAYOUTS[i % len(G.LAYOUTS)]
+        cases.append(G.rand_history(rng, "memh%d" % i, layout, kinds, 200 if q else 1200, 40 if q else 150, ranges=True, clones=True, caps=True))
+    return cases
+
+PROPS["C05"] = {"gen": gen_c05, "proj": {"want_cap": True, "want_mem": True, "want_alloc": True},
+    "kinds": {"memory", "crash", "capacity", "mem-protocol", "alloc-protocol", "leak"} | OWN,
+    "rule": "C01/C02/C08 histories on the instrumented user backend (relocates on every capacity change, poison-fills fresh and "
+            "released memory, guard zones, quarantine) and on Heap under the instrumented allocator, all layouts; compared with "
+            "the model's backend call trace (build once, expand/resize arguments, drop once last); canaries, guard zones, "
+            "quarantine and poison are checked by the harness after the fact",
+    "design_ref": "DESIGN.md section 7, C05"}
